@@ -305,7 +305,48 @@ func runC18(c *Ctx) {
 	c.Assume("float64 inputs that are not float32-representable are covered only by the breakpoint neighbourhoods and the exponent sweep")
 }
 
+// c18Factories: a freshly constructed factory agrees with the global one on every code and name, and
+// registering a custom activator makes it resolvable in both directions without disturbing the rest.
+func c18Factories(c *Ctx) {
+	fresh := neatmath.NewNodeActivatorsFactory()
+	for code := 0; code < 256; code++ {
+		t := neatmath.NodeActivationType(code)
+		n1, e1 := neatmath.NodeActivators.ActivationNameFromType(t)
+		n2, e2 := fresh.ActivationNameFromType(t)
+		c.AddEval(1)
+		if n1 != n2 || (e1 == nil) != (e2 == nil) {
+			c.ViolateOrd("C18/lookup/fresh-factory", int64(code), fmt.Sprintf("a fresh factory names code %d %q (err %v), the global one %q (err %v)", code, n2, e2, n1, e1), &Replay{Scenario: "code", Params: map[string]interface{}{"code": code}})
+		}
+		if e1 == nil {
+			if back, err := fresh.ActivationTypeFromName(n1); err != nil || back != t {
+				c.ViolateOrd("C18/lookup/fresh-factory-inverse", int64(code), fmt.Sprintf("a fresh factory resolves name %q to %d (err %v), want %d", n1, back, err, code), &Replay{Scenario: "code", Params: map[string]interface{}{"code": code}})
+			}
+		}
+	}
+	const custom = neatmath.NodeActivationType(100)
+	fresh.Register(custom, func(x float64, _ []float64) float64 { return 2 * x }, "DoubleActivation")
+	c.AddEval(1)
+	if v, err := fresh.ActivateByType(21, nil, custom); err != nil || v != 42 {
+		c.ViolateOrd("C18/register/value", 0, fmt.Sprintf("a registered custom activator returned %v (err %v), want 42", v, err), nil)
+	}
+	if n, err := fresh.ActivationNameFromType(custom); err != nil || n != "DoubleActivation" {
+		c.ViolateOrd("C18/register/name", 0, fmt.Sprintf("the custom activator's name is %q (err %v)", n, err), nil)
+	}
+	if t, err := fresh.ActivationTypeFromName("DoubleActivation"); err != nil || t != custom {
+		c.ViolateOrd("C18/register/type", 0, fmt.Sprintf("the custom activator's name resolves to %d (err %v)", t, err), nil)
+	}
+	if _, err := neatmath.NodeActivators.ActivationNameFromType(custom); err == nil {
+		c.ViolateOrd("C18/register/leak", 0, "registering on a fresh factory made the type known to the global factory", nil)
+	}
+	for _, s := range c18Scalars {
+		if n, err := fresh.ActivationNameFromType(s.code); err != nil || n != s.name {
+			c.ViolateOrd("C18/register/disturbed", int64(s.code), fmt.Sprintf("after registering a custom activator code %d is named %q (err %v), want %q", s.code, n, err, s.name), nil)
+		}
+	}
+}
+
 func c18Lookups(c *Ctx) {
+	c18Factories(c)
 	scalar := map[neatmath.NodeActivationType]string{}
 	module := map[neatmath.NodeActivationType]string{}
 	for _, s := range c18Scalars {
